@@ -166,6 +166,12 @@ SPLIT_SEQS = [   # (text, [(separator, regex?) ...]): ONE separator text used as
 
 def mk_cases(ctx):
     cases = []
+    # maxsplit is a documented parameter the code refuses: either NotImplementedError or exactly str.split(sep, maxsplit)
+    for t in ("a,b,,c", ",a,", "ab", ""):
+        for f in layouts_for(t)[:4]:
+            for sep in (",", "b"):
+                for mx in (0, -1, 1, 2):
+                    cases.append(dict(m="split_max", args=[sep, mx], f=f, lay=-2))
     for t, steps in SPLIT_SEQS:
         for f in layouts_for(t)[:5]:
             cases.append(dict(m="split_seq", args=[], steps=steps, f=f, lay=-1))
@@ -419,6 +425,18 @@ def check_uniform(r, c, what):
 
 
 def _oracle(c):
+    if c["m"] == "split_max":
+        f = mk_fmt(c["f"])
+        s0 = "".join(t for t, _ in c["f"])
+        try:
+            r = f.split(c["args"][0], c["args"][1])
+        except NotImplementedError:
+            return None
+        exp = s0.split(c["args"][0], c["args"][1])
+        got = [x.s for x in r] if isinstance(r, list) and all(isinstance(x, FmtStr) for x in r) else r
+        if got != exp:
+            return "split%r: texts %r, str gives %r (or NotImplementedError)" % (tuple(c["args"]), got, exp)
+        return None
     if c["m"] == "split_seq":
         # history: the answer of split(sep) / split(sep, regex=True) must not depend on what was split before
         for i, (sep, rx) in enumerate(c["steps"]):
@@ -572,7 +590,7 @@ D27_MODEL = {}   # request line -> reply of the Lean model (its own escape parse
 
 
 def d27_shaped(c):
-    if c["m"] == "split_seq":
+    if c["m"] in ("split_seq", "split_max"):
         return False
     return _d27_shaped(c)
 
@@ -675,14 +693,14 @@ def spec_impl(c):
 
 def check(ctx):
     cases = mk_cases(ctx)
-    d27 = [c for c in cases if c["m"] != "split_seq" and d27_shaped(c)]
+    d27 = [c for c in cases if c["m"] not in ("split_seq", "split_max") and d27_shaped(c)]
     try:
         import lib
         for c, rep in zip(d27, lib.run_driver([line(c) for c in d27])):
             D27_MODEL[line(c)] = rep
     except Exception as e:  # noqa: BLE001 - without the model nothing is attributed to D27
         ctx.note("D27 expectations unavailable: %r" % (e,))
-    ctx.tie("C15/methods", [c for c in cases if c["m"] != "split_seq"], line, impl, canon, canon)
+    ctx.tie("C15/methods", [c for c in cases if c["m"] not in ("split_seq", "split_max")], line, impl, canon, canon)
     sc = spec_cases(ctx)
     ctx.tie("C15/str-specs-vs-CPython", sc, spec_line, spec_impl)
     ctx.exhaustive.append("Spec.strSplit / strSplitlines / pyLjust / pyRjust against CPython str on all strings over small "
@@ -709,6 +727,6 @@ def search(ctx):
 
 def replay(payload):
     c = payload["case"]
-    if c["m"] == "split_seq":
+    if c["m"] in ("split_seq", "split_max"):
         return dict(case=c, oracle=oracle(c))
     return dict(case=c, implementation=impl(c), model_request=line(c), oracle=oracle(c))
